@@ -24,3 +24,7 @@ Definition watch_check (c : list path * path * list (path * bool) * N * list ent
   let is_dir q := match find (fun x => path_eqb (fst x) q) dirs with Some (_, b) => b | None => false end in
   let want := handle true roots is_dir (kind_of_N k) p in
   subset want obs && subset obs want.
+
+(* (root, entry, observed FileSystem::path_of) *)
+Definition pathof_check (c : path * entry * path) : bool :=
+  let '(root, e, obs) := c in path_eqb (path_of root e) obs.
